@@ -3,7 +3,7 @@ From Coq Require Import ZArith QArith Bool Reals Qreals.
 From Flocq Require Import Core.
 Require Import QV.common.Ctl QV.C14.Gen_numeric QV.C14.Gen_rational QV.C14.Model QV.C14.GenEq QV.C14.Proofs.
 Require Import QV.C14.GenEqRat QV.C14.ProofsRat QV.C14.HashModel QV.C14.ProofsHash QV.C14.Dispatch QV.C14.ProofsDispatch.
-Require Import QV.C14.Float64 QV.C14.ProofsFloat.
+Require Import QV.C14.Float64 QV.C14.ProofsFloat QV.C14.ProofsCons QV.C14.ProofsRound.
 Local Open Scope Q_scope.
 
 (* (1) the kernel re-translated from /repo on every run computes the clean model, for every fuel and input *)
@@ -158,3 +158,33 @@ Theorem C14_float_exact_fixed : forall m e : Z, (Z.abs m < 2 ^ 53)%Z -> (-1074 <
   RN64 (F2R (Float radix2 m e)) = F2R (Float radix2 m e).
 Proof. exact RN64_exact. Qed.
 Print Assumptions C14_float_exact_fixed.
+
+(* ---------------------------------------------------------------------------------------------------------------- *)
+(* round 4 *)
+
+(* (10) the six comparisons of a time value with any operand are consistent with each other in both operand orders:
+        exactly one of < == > holds, <= is (< or ==), >= is (> or ==), != is (not ==), `other op t` mirrors `t op other`,
+        and == implies equal hashes (the laws check_spec evaluates on the implementation's answers, case CCons) *)
+Theorem C14_cmp_consistent : forall (t : Q) (o : operand),
+  cmp6_consistent (time_cmp6 t o false) = true /\ cmp6_consistent (time_cmp6 t o true) = true /\
+  cmp6_mirror (time_cmp6 t o false) (time_cmp6 t o true) = true /\
+  (c_eq (time_cmp6 t o false) = true -> pyhash_Q t = pyhash_Q (cmp_value o)).
+Proof. exact time_cmp_consistent. Qed.
+Print Assumptions C14_cmp_consistent.
+
+(* (11) the executable rounding-interval criterion that check_spec evaluates on every generated float (Float64.rounds_to:
+        d strictly between the two midpoints around m*2^e, or on a midpoint when m is even; binade boundaries, subnormal
+        numbers, zero and both signs) implies Flocq's round-to-nearest-even in binary64 *)
+Theorem C14_rounds_to_correct : forall (m e : Z) (d : Q),
+  canonical64 m e = true -> rounds_to m e d = true -> RN64 (Q2R d) = F2R (Float radix2 m e).
+Proof. exact rounds_to_correct. Qed.
+Print Assumptions C14_rounds_to_correct.
+
+(* so a converted value that passes the criterion converts back to the float, given correctly rounded int / int only
+   (the hypothesis on repr of theorem (9) is replaced by what the check establishes case by case) *)
+Theorem C14_float_roundtrip_checked : forall (m e : Z) (pydiv : Z -> Z -> R),
+  (forall n d, (0 < d)%Z -> pydiv n d = RN64 (IZR n / IZR d)%R) ->
+  forall (num : Z) (den : positive), canonical64 m e = true -> rounds_to m e (num # den) = true ->
+  pydiv num (Zpos den) = F2R (Float radix2 m e).
+Proof. exact float_roundtrip_checked. Qed.
+Print Assumptions C14_float_roundtrip_checked.
